@@ -202,6 +202,8 @@ class Solver:
         self.structures.remove(structure)
         for st in structure.connected_to:
             st.remove_connections(structure)
+        structure.conn_dict = {}
+        structure.connected_to = []
         copy_dic = copy(self.connections)
         for (st1, pin1), (st2, pin2) in copy_dic.items():
             if st1 is structure or st2 is structure:
